@@ -59,7 +59,9 @@ def start_project(spec, sim_absence):
 
 
 def logs(m):
-    return S.dump(m, live=False)
+    d = S.dump(m, live=False)
+    d["absence"] = [int(x) for x in d["absence"]]  # (indices given as numpy integers are the same indices)
+    return d
 
 
 def all_logs(m):
@@ -120,7 +122,12 @@ def apply_and_check(m, op, spec):
     rem_before = {t.ID: list(t.remaining_work_amount_record_list) for t in p.workflow.task_list}
     try:
         if op[0] == "insert":
-            p.insert_absence_time_list(list(op[1]))
+            lst = list(op[1])
+            if len(op) > 2 and op[2] == "np":
+                import numpy
+
+                lst = [numpy.int64(x) for x in lst]  # the index list comes from a numpy computation
+            p.insert_absence_time_list(lst)
         else:
             p.remove_absence_time_list()
     except Exception as e:
@@ -205,6 +212,27 @@ def replay_history(spec, sim_absence, hist):
                 return m, viol, True
             free = True
             continue
+        if op[0] == "grow":
+            # the organization grows (a new team with a worker, a new workplace with a machine) and the project is simulated afresh
+            from pDESy.model.base_facility import BaseFacility
+            from pDESy.model.base_team import BaseTeam
+            from pDESy.model.base_worker import BaseWorker
+            from pDESy.model.base_workplace import BaseWorkplace
+
+            try:
+                tm = BaseTeam(name="TMG", ID="TMG")
+                tm.add_worker(BaseWorker(name="WG", ID="WG", cost_per_time=1.0))
+                wp = BaseWorkplace(name="WPG", ID="WPG")
+                wp.add_facility(BaseFacility(name="FG", ID="FG", cost_per_time=1.0))
+                m.project.organization.team_list.append(tm)
+                m.project.organization.workplace_list.append(wp)
+                m.project.simulate(max_time=40, absence_time_list=[a for a in sim_absence if isinstance(a, int)])
+                m = S.adopt(m.project)
+            except Exception as e:
+                viol.append(("C18:simulating-again-after-the-organization-grew-raised:%s" % type(e).__name__, {"k": k, "op": op, "error": repr(e)}))
+                return m, viol, True
+            free = False
+            continue
         if free and op[0] == "remove":
             before = logs(m)
             got, dead = apply_and_check(m, op, spec)
@@ -283,6 +311,7 @@ def work(chunk):
         m0 = start_project(spec, sim_absence)
         n = m0.project.time
         ops = [("insert", L) for L in index_lists(n, tier)] + [("remove",)] + ([("load-free",)] if label != "subproject" else [])
+        ops += [("insert", L, "np") for L in index_lists(n, tier) if len(L) == 1 or L == (0, 1)]  # the same indices as numpy integers
         frontier = collections.deque([(op,) for op in ops])
         seen = set()
         while frontier:
@@ -303,7 +332,7 @@ def work(chunk):
             col.states.add(hash((key, c)))
             col.nontrivial.add(hash((key, c)))
             col.outcomes[(m.project.time - n)] += 1
-            if len(hist) < depth:
+            if len([o for o in hist if o[0] != "grow"]) < depth:
                 n2 = m.project.time
                 lists = index_lists(n2, tier)
                 if len(hist) >= 2:
@@ -311,6 +340,8 @@ def work(chunk):
                     lists = [L for L in lists if len(L) == 1]
                 for op in [("insert", L) for L in lists] + [("remove",)] + ([("load-free",)] if label != "subproject" and len(hist) < 2 else []):
                     frontier.append(hist + (op,))
+                if len(hist) == 1 and label != "subproject" and (hist[0][0] == "remove" or (hist[0][0] == "insert" and len(hist[0]) == 2 and len(hist[0][1]) == 1)):
+                    frontier.append(hist + (("grow",),))  # edit, then the organization grows and the project is simulated afresh, then edit again
         if len(col.samples) < 2:
             col.samples.append({"model": label, "sim_absence": list(sim_absence), "first_level_ops": [list(o) for o in ops[:6]]})
     return col
